@@ -652,6 +652,9 @@ def gen_C02(g, tier):
                     lines.append(f"{c} kmer eqseq {K} {st} {v} p str {hx(t)}")
                     lines.append(f"{c} kmer eqseq {K} {st} {v} own {sl}")
                     lines.append(f"{c} kmer eqseq {K} {st} {v} p str {hx(t[:-1])}")
+                    lines.append(f"{c} kmer eqseq {K} {st} {v} p str {hx(t + g.text(c, per + 1))}")
+                    lines.append(f"{c} kmer eqseq {K} {st} {v} p str {hx(g.text(c, 2 * per + 3))}")
+                    lines.append(f"{c} kmer eq {K} {st} slice {v} p str {hx(t + g.text(c, 2 * per))}")
                     long = g.text(c, K + r.randrange(0, 6))
                     lines.append(f"{c} kmer iterhash {K} {st} {offset_slice(g, c, long, lead)}")
     return lines
@@ -733,6 +736,12 @@ def gen_C08(g, tier):
                     lines.append(f"{c} kmer try {K} usize {sl}")
                     lines.append(f"{c} show kd {K} {sl}")
                     lines.append(f"{c} show ofkmer {K} {sl}")
+                    if n == K:
+                        lines.append(f"{c} eqfresh ofkmer {K} {sl}")
+                        lines.append(f"{c} raw ofkmer {K} {sl}")
+                        lines.append(f"{c} show push 1 ofkmer {K} {sl}")
+                        lines.append(f"{c} show append ofkmer {K} {sl} {sl}")
+                        lines.append(f"{c} eq seq_slice ofkmer {K} {sl} {sl}")
                 lines.append(f"{c} kmer tryseq {K} usize p str {hx(t)}")
                 if n == K:
                     lines.append(f"{c} kmer tryseq {K} usize trunc {K} p str {hx(t + g.text(c, 3))}")
